@@ -443,6 +443,42 @@ theorem implNP_of_sig {name : Bytes} {f : FilterImpl} {ps : List Param}
   rw [hs] at ha
   exact h args ha
 
+/-- the adapter for bodies over plain values only propagates the body's result and the lazily
+converted constants -/
+theorem ofEager_noPanic {returnsErr : Bool} {f : List GoVal → Res Cause GoVal} {args : List Arg}
+    (ha : ∀ a ∈ args, ArgNP a)
+    (hf : ∀ vs, FilterImpl.ofEager.collect args = .ok vs → NoPanicRes (f vs)) :
+    NoPanicRes (FilterImpl.ofEager returnsErr f args) := by
+  have hc : ∀ as : List Arg, (∀ a ∈ as, ArgNP a) → NoPanicRes (FilterImpl.ofEager.collect as) := by
+    intro as
+    induction as with
+    | nil => intro _; trivial
+    | cons a as ih =>
+      intro h
+      have ih' := ih (fun a ha => h a (List.mem_cons_of_mem _ ha))
+      cases a with
+      | val v => rw [FilterImpl.ofEager.collect]; exact NoPanicRes.bind ih' (fun _ => trivial)
+      | fn c =>
+        cases c with
+        | none => rw [FilterImpl.ofEager.collect]; exact ih'
+        | some r =>
+          rw [FilterImpl.ofEager.collect]
+          have hr : NoPanicRes r := h (.fn (some r)) List.mem_cons_self
+          exact NoPanicRes.bind hr (fun _ => NoPanicRes.bind ih' (fun _ => trivial))
+  unfold FilterImpl.ofEager
+  cases hcol : FilterImpl.ofEager.collect args with
+  | ok vs =>
+    simp only [Res.bind]
+    have := hf vs hcol
+    cases hr : f vs with
+    | ok v => trivial
+    | err c => simp only []; split <;> trivial
+    | unmodelled w => trivial
+    | panic w => rw [hr] at this; exact this.elim
+  | err e => trivial
+  | unmodelled w => trivial
+  | panic w => have := hc args ha; rw [hcol] at this; exact this.elim
+
 /-! ## The bodies of `Filters/Num.lean`
 
 `Num.badArgs` (a call with arguments of the wrong Go type: `reflect.Value.Call` panics) is the only
